@@ -57,4 +57,20 @@ PROPS = {
                 "senders broadcast. Distinct = hash of the whole case.",
         "assumptions": COMMON_ASSUME,
     },
+    "C11": {
+        "module": "core", "pkg": "./checks", "level": "fault_enumeration",
+        "jobs": [
+            {"test": "TestC11Enum", "quick": 1, "thorough": 1, "shards_thorough": 14, "timeout_quick": 1500},
+            {"test": "TestC11Rand", "quick": 150, "thorough": 6000, "shards_thorough": 14},
+        ],
+        "rule": "Full stack (LoudScheme/SilentScheme; BLS, PS and a scripted backend; KeyGen and Sign) under virtual time. For each configuration a "
+                "fault-free reference run numbers every frame sent during the operation; then exhaustively: every peer P and every k (P cut off after "
+                "its k-th outgoing frame, k=0 = never starts), every single withheld frame, cancellation of a caller's context at 13 points, and (sign) "
+                "unusable stored share data with and without a deadline. TestC11Rand adds random configurations, schedules and faults. Oracle: every "
+                "call returns (error or success) by deadline+grace of virtual time, no panic during the run or a 3-minute virtual linger, successes agree "
+                "on public material. Non-trivial = the fault actually removed a frame / hit a running call. Distinct = configuration + fault.",
+        "exhaustive_claim": False,
+        "exhaustive_parts": "per listed configuration and reference schedule the (peer,k) and single-withheld-frame spaces are enumerated completely; configurations and schedules are a finite sample",
+        "assumptions": COMMON_ASSUME + ["a vanished peer is modelled as a node whose outgoing frames are dropped after the k-th"],
+    },
 }
